@@ -25,6 +25,7 @@ EXPLANATION = (
     "solve returns; the initial policy is problem.initial_policy per state, falling back only on "
     "NotImplementedError to the greedy policy of all-zero values.  Does not decide the epsilon/gamma "
     "accuracy as a number."
+    ' Also decides (R5.6) that no return of solve() bypasses the improvement loop on remembered state such as a `converged` flag.'
 )
 RULES = {
     "R5.1": "evaluation kernel == [n -> Q(s_n, POLICY[state_to_index(s_n)])] with Q the sweep's state-action term; no reduction over actions",
